@@ -120,6 +120,33 @@ def replay_known(ctx, name, ops, expect_line, expect_text, key, what):
     ctx.log(f"[replay] {name}: behaviour {'reproduced' if shown else 'NOT reproduced'} on the implementation, model {'agrees' if agree else 'DIFFERS'}")
 
 
+def shrink_new(ctx):
+    """delta-debugs the recorded case of every violation that is not a known finding (the differential runs
+    themselves do not shrink: most mismatch classes of this check are known findings)"""
+    import json
+    for v in ctx.violations:
+        if v.get("nfi") or not v["key"].startswith("reqres."):
+            continue
+        try:
+            obj = json.load(open(v["replay"]))
+            suffix = v["key"].split(":", 1)[1]
+            lo = make_line_oracle()
+
+            def same(c2, i2, io, mo):
+                base = io.split(" ORACLE[", 1)[0]
+                if lo(c2, i2, base) == suffix:
+                    return True
+                if base != io:
+                    return classify(c2, i2, io, mo) == suffix
+                return base != mo and classify(c2, i2, base, mo) == suffix
+            ops = core.shrink_case("reqres", obj["ops"], same, every_line=True)
+            obj["ops"] = ops
+            obj["impl"], obj["model"] = core.replay_case("reqres", ops)
+            json.dump(obj, open(v["replay"], "w"), indent=1)
+        except Exception as e:   # shrinking is a convenience
+            ctx.notes.append(f"shrinking of {v['key']} failed: {e}")
+
+
 def run(ctx):
     ctx.known = list(ctx.known) + LOCAL_KNOWN
     core.prove(ctx)
@@ -132,15 +159,16 @@ def run(ctx):
         quick = ctx.tier == "quick"
         lo = make_line_oracle()
         core.diff_component(ctx, "reqres", ["gen", "--exhaustive", 3 if quick else 4], classify, label="reqres.exhaustive", shrink=False, line_oracle=lo)
-        shrink = not quick   # quick tier: the recorded (unshrunk) case is kept as replay; known histories are replayed below anyway
+        shrink = False       # classes that are known findings are not worth shrinking; new ones are shrunk below
         core.diff_component(ctx, "reqres", ["gen", "--seed", ctx.seed, "--cases", 1200 if quick else 12000, "--len", 80 if quick else 120],
                             classify, label="reqres.random", line_oracle=lo, shrink=shrink)
         core.diff_component(ctx, "reqres", ["gen", "--seed", ctx.seed + 7, "--cases", 500 if quick else 6000, "--len", 120 if quick else 200, "sat"],
                             classify, label="reqres.saturation", line_oracle=lo, shrink=shrink)
         core.diff_component(ctx, "reqres", ["gen", "--seed", ctx.seed + 11, "--cases", 800 if quick else 10000, "--len", 100 if quick else 140, "churn"],
                             classify, label="reqres.churn", line_oracle=lo, shrink=shrink)
-        core.diff_component(ctx, "reqres", ["gen", "--seed", ctx.seed + 13, "--cases", 100 if quick else 1200, "--len", 60 if quick else 100, "ipc"],
+        core.diff_component(ctx, "reqres", ["gen", "--seed", ctx.seed + 13, "--cases", 100 if quick else 600, "--len", 60 if quick else 100, "ipc"],
                             classify, label="reqres.ipc", line_oracle=lo, shrink=shrink)
+        shrink_new(ctx)
         replay_known(ctx, "cross-client-routing", CEX_ROUTING, 10, "response delivered to a request of another client",
                      "reqres.replay:oracle:response-delivered-to-a-request-of-another-client", LOCAL_KNOWN[0]["what"])
         ctx.known.append(dict(property="C11", status="open", key="reqres.replay:panic:leaked-borrow-expired-buffer",
@@ -174,4 +202,5 @@ ASSUME = ["every API call is one atomic step of the L1 model (concurrency below 
           "u64 payloads, static data segments, backpressure strategy DiscardData (the blocking strategies spin on the same try_send)",
           "loan and send of a request / response happen in one step (no outstanding RequestMut / ResponseMut between calls)",
           "disconnect visibility (d) is proved for the connections in the dropping port's storage at the time of the drop and by request-id uniqueness; "
-          "that a closed channel word stays closed across later re-connections is not proved"]
+          "that a closed channel word stays closed across later re-connections is not proved - it is checked (executable predicate `s1ok` in Driver/ReqRes.lean: a response "
+          "channel carries a request id only while a pending response of the receiving client owns channel and id) on every model state the differential run reaches"]
